@@ -16,11 +16,11 @@ import (
 // SpaceType × at-fresh-line × (Bad node, After).
 
 type spaceIn struct {
-	space   string // constant name
-	fresh   bool
-	bad     bool
-	after   bool
-	spaceV  int64
+	space  string // constant name
+	fresh  bool
+	bad    bool
+	after  bool
+	spaceV int64
 }
 
 type spaceEval struct {
@@ -62,6 +62,27 @@ func (s *spaceEval) evalBool(x ast.Expr) (bool, bool) {
 	switch b := x.(type) {
 	case *ast.ParenExpr:
 		return s.evalBool(b.X)
+	case *ast.CallExpr:
+		// a predicate over the node, declared in the same package: evaluated through its body
+		if len(b.Args) == 1 {
+			if id, ok := b.Args[0].(*ast.Ident); ok && s.info.Uses[id] == s.nodeObj {
+				if fn := calleeFunc(s.info, b); fn != nil {
+					for _, fd := range load.AllFuncDecls(s.e.Prog.Pkg(load.PkgDecorator)) {
+						if s.info.Defs[fd.Name] == types.Object(fn) && fd.Body != nil {
+							return s.evalNodePredicate(fd)
+						}
+					}
+				}
+			}
+		}
+		return false, false
+	case *ast.Ident:
+		if b.Name == "true" {
+			return true, true
+		}
+		if b.Name == "false" {
+			return false, true
+		}
 	case *ast.BinaryExpr:
 		switch b.Op {
 		case token.EQL, token.NEQ, token.LSS, token.GTR, token.LEQ, token.GEQ:
@@ -117,6 +138,48 @@ func (s *spaceEval) evalBool(x ast.Expr) (bool, bool) {
 		if b.Op == token.NOT {
 			v, ok := s.evalBool(b.X)
 			return !v, ok
+		}
+	}
+	return false, false
+}
+
+// evalNodePredicate evaluates `func p(node dst.Node) bool` whose body is a type switch (or type
+// assertions) over Bad* types returning constants.
+func (s *spaceEval) evalNodePredicate(fd *ast.FuncDecl) (bool, bool) {
+	for _, st := range fd.Body.List {
+		switch x := st.(type) {
+		case *ast.TypeSwitchStmt:
+			for _, cl := range x.Body.List {
+				cc := cl.(*ast.CaseClause)
+				if cc.List == nil {
+					continue
+				}
+				allBad := true
+				for _, t := range cc.List {
+					_, tn := schema.NamedTypeName(s.info.TypeOf(t))
+					if !strings.HasPrefix(tn, "Bad") {
+						allBad = false
+					}
+				}
+				if !allBad {
+					return false, false
+				}
+				if s.in.bad {
+					if len(cc.Body) == 1 {
+						if rs, ok := cc.Body[0].(*ast.ReturnStmt); ok && len(rs.Results) == 1 {
+							return s.evalBool(rs.Results[0])
+						}
+					}
+					return false, false
+				}
+			}
+		case *ast.ReturnStmt:
+			if len(x.Results) == 1 {
+				return s.evalBool(x.Results[0])
+			}
+			return false, false
+		default:
+			return false, false
 		}
 	}
 	return false, false
@@ -276,60 +339,69 @@ func (s *spaceEval) stmt(st ast.Stmt) {
 			s.stmts(def.Body)
 		}
 	case *ast.ForStmt:
-		// for i := 0; i < N; i++ { body }
-		init, ok1 := x.Init.(*ast.AssignStmt)
-		cond, ok2 := x.Cond.(*ast.BinaryExpr)
-		post, ok3 := x.Post.(*ast.IncDecStmt)
-		if !ok1 || !ok2 || !ok3 || init.Tok != token.DEFINE || len(init.Lhs) != 1 || cond.Op != token.LSS || post.Tok != token.INC {
-			s.fail("loop is not `for i := 0; i < n; i++`")
+		// a counting loop over tracked integers: executed abstractly, iteration by iteration; the
+		// body is the line-break emission and is checked separately
+		if x.Init != nil {
+			s.stmt(x.Init)
+		}
+		if x.Cond == nil {
+			s.fail("loop without condition")
 			return
 		}
-		iObj := s.info.Defs[init.Lhs[0].(*ast.Ident)]
-		start, okS := s.evalInt(init.Rhs[0])
-		limit, okL := s.evalInt(cond.Y)
-		cid, okC := cond.X.(*ast.Ident)
-		pid, okP := post.X.(*ast.Ident)
-		if !okS || !okL || !okC || !okP || s.info.Uses[cid] != iObj || s.info.Uses[pid] != iObj {
-			s.fail("loop bounds are not constants/tracked variables")
-			return
-		}
-		// the body must not touch the loop variable or the bound
+		// the body must not touch tracked integers or leave early
 		bad := false
 		ast.Inspect(x.Body, func(n ast.Node) bool {
-			if as, ok := n.(*ast.AssignStmt); ok {
-				for _, l := range as.Lhs {
+			switch b := n.(type) {
+			case *ast.AssignStmt:
+				for _, l := range b.Lhs {
 					if id, ok := l.(*ast.Ident); ok {
 						if o := s.info.Uses[id]; o != nil {
-							if _, tracked := s.ints[o]; tracked || o == iObj {
+							if _, tracked := s.ints[o]; tracked {
 								bad = true
 							}
 						}
 					}
 				}
-			}
-			if id, ok := n.(*ast.IncDecStmt); ok {
-				if i2, ok := id.X.(*ast.Ident); ok {
-					if o := s.info.Uses[i2]; o != nil {
-						if _, tracked := s.ints[o]; tracked || o == iObj {
+			case *ast.IncDecStmt:
+				if id, ok := b.X.(*ast.Ident); ok {
+					if o := s.info.Uses[id]; o != nil {
+						if _, tracked := s.ints[o]; tracked {
 							bad = true
 						}
 					}
 				}
-			}
-			if _, ok := n.(*ast.BranchStmt); ok {
-				bad = true
-			}
-			if _, ok := n.(*ast.ReturnStmt); ok {
+			case *ast.BranchStmt, *ast.ReturnStmt:
 				bad = true
 			}
 			return true
 		})
 		if bad {
-			s.fail("loop body changes its own bound or leaves early")
+			s.fail("loop body changes a loop counter or leaves early")
 			return
 		}
-		if limit > start {
-			s.breaks += limit - start
+		for iter := 0; ; iter++ {
+			if iter > 16 {
+				s.fail("loop does not terminate within 16 iterations")
+				return
+			}
+			v, ok := s.evalBool(x.Cond)
+			if !ok {
+				s.fail("loop condition %s is outside the analysable subset", s.c.ExprStr(x.Cond))
+				return
+			}
+			if !v {
+				break
+			}
+			s.breaks++
+			if x.Post != nil {
+				s.stmt(x.Post)
+				if s.undec != "" {
+					return
+				}
+			} else {
+				s.fail("loop without post statement")
+				return
+			}
 		}
 		s.body = x.Body.List
 	case *ast.ReturnStmt:
@@ -451,7 +523,7 @@ func (e *Env) markerDiscipline() {
 			return true
 		})
 	}
-	e.Run.Floor("R-SPACE", "marker stores", n, 2)
+	e.Run.Floor("R-SPACE", "marker stores", n, 1)
 	// applyDecorations: the line-break block is guarded by isLineComment || isNewline, defined from the text
 	fd := load.FuncDecl(pkg, "FileRestorer", "applyDecorations")
 	if fd == nil {
